@@ -165,3 +165,9 @@ package xpair1
 //@   ensures result.Self == 17 && result.Peer == 17 && result.SelfName == "pair1" && result.PeerName == "pair1"
 //@
 // ---- end generated Info contracts ----
+
+// ---- round 10 (C10 "later calls fail with a closed error"): Send on a closed socket (a message without a
+// well-formed PAIRv1 header is dropped before the socket is looked at, open or closed) ----
+//@ func (*socket).SendMsg
+//@   ghost wasclosed = s.closed at call:Lock#1
+//@   ensures called("Lock") && wasclosed ==> result == protocol.ErrClosed
